@@ -11,6 +11,7 @@ import (
 	"strings"
 
 	"github.com/Masterminds/semver"
+	"github.com/nyaruka/gocommon/jsonx"
 	"github.com/nyaruka/gocommon/uuids"
 	"github.com/nyaruka/goflow/envs"
 	"github.com/nyaruka/goflow/excellent"
@@ -514,6 +515,17 @@ func runC16(c *Ctx) {
 		c.Eval(fmt.Sprintf("ok|%s|%s", kind, d.feats))
 	}
 
+	// ---- K: every per-version function against its model --------------------------------------------------------------
+	for _, d := range defs {
+		if d.version != "" && c16Less(d.version, "13.6.0") {
+			c16MigSteps(c, d.name, d.data, d.version, d.feats)
+		}
+	}
+	for i := 0; i < c.N(1200, 40000); i++ {
+		d := c16StepDoc(r.Fork(), i)
+		c16MigSteps(c, d.name, d.data, d.version, d.feats)
+	}
+
 	// ---- K: the 13.6 name limits against the model ----------------------------------------------------------------
 	for i := 0; i < c.N(1500, 60000); i++ {
 		n := Pick(r, []int{0, 1, 35, 36, 37, 38, 63, 64, 65, 66, 70, 100, 200})
@@ -830,3 +842,313 @@ func canonUUIDs(b []byte) string {
 }
 
 var uuidLikeRe = regexp.MustCompile(`[0-9a-f]{8}-[0-9a-f]{4}-[0-9a-f]{4}-[0-9a-f]{4}-[0-9a-f]{12}`)
+
+// ---------------------------------------------------------------------------------------------------------------------
+// K:migstep — each registered per-version function (13.1, 13.2, 13.4, 13.5, 13.6) called directly on the decoded
+// definition, as migrate() calls it, against the Lean model of that function (Migrate/Steps.lean) on the same document;
+// the UUIDs the function draws come from a counting generator whose sequence the model is given
+// ---------------------------------------------------------------------------------------------------------------------
+
+type c16CountGen struct{ n int }
+
+func c16SeqUUID(i int) string { return fmt.Sprintf("0f0f0f0f-0000-4000-8000-%012d", i) }
+
+func (g *c16CountGen) NextV4() uuids.UUID { u := c16SeqUUID(g.n); g.n++; return uuids.UUID(u) }
+func (g *c16CountGen) NextV7() uuids.UUID { return g.NextV4() }
+
+func c16MigSteps(c *Ctx, name string, data []byte, fromVersion string, feats string) {
+	cur := data
+	var seq []string
+	for i := 0; i < 48; i++ {
+		seq = append(seq, hx(c16SeqUUID(i)))
+	}
+	for vi, v := range c16Versions[1:] {
+		vnum := vi + 1
+		if !c16Less(fromVersion, v) {
+			continue
+		}
+		flow, err := migrations.ReadFlow(cur)
+		if err != nil {
+			return
+		}
+		inDoc := string(jsonx.MustMarshal(flow))
+		var fn migrations.MigrationFunc
+		for rv, f := range migrations.Registered() {
+			if rv.String() == v {
+				fn = f
+			}
+		}
+		if fn == nil {
+			c.Fail("correspondence", "K:migstep", "K:migstep", "no migration function registered for "+v, nil)
+			return
+		}
+		desc := map[string]any{"definition": name, "function": "Migrate13_" + fmt.Sprint(vnum), "features": feats}
+		if len(inDoc) < 6000 {
+			desc["input"] = json.RawMessage(inDoc)
+		}
+		gen := &c16CountGen{}
+		uuids.SetGenerator(gen)
+		var out migrations.Flow
+		var merr error
+		panicked := c.Guard("K-migstep", "panic:%site%", desc, func() { out, merr = fn(flow, migrations.DefaultConfig) })
+		uuids.SetGenerator(uuids.DefaultGenerator)
+		if panicked || merr != nil {
+			return
+		}
+		out["spec_version"] = semver.MustParse(v).String()
+		next, err := jsonx.Marshal(out)
+		if err != nil {
+			return
+		}
+		if vnum != 3 {
+			in, ok1 := jsonTokens(inDoc, false)
+			o, ok2 := jsonTokens(string(next), false)
+			if ok1 && ok2 && len(in) < 12000 && gen.n <= len(seq) {
+				c.Eval(fmt.Sprintf("migstep|%d|%s|%v", vnum, feats, inDoc != string(next)))
+				c.Count(fmt.Sprintf("migstep:13.%d:changed=%v", vnum, canonVersionless(inDoc) != canonVersionless(string(next))))
+				c.Model("migstep", fmt.Sprintf("migstep %d 0 %s %s", vnum, strings.Join(seq, ","), strings.Join(in, " ")),
+					fmt.Sprintf("ok %d %s", gen.n, strings.Join(o, " ")), desc)
+			}
+		}
+		cur = next
+	}
+}
+
+var specVersionRE = regexp.MustCompile(`"spec_version":"[^"]*"`)
+
+func canonVersionless(s string) string { return specVersionRE.ReplaceAllString(s, "") }
+
+// definitions made to exercise what the per-version functions read: old-style templating objects in all their forms,
+// translations of their variables / params in several languages (some languages or items not objects, some properties not
+// lists, lists with other things than strings, items that become empty), several send_msg actions sharing UUIDs, things
+// that are not objects among nodes, actions, components and categories, languages of every length, names at and around
+// the 13.6 limits with other than ASCII letters and every kind of white space
+func c16StepDoc(r *Rng, i int) c16Def {
+	us := &uuidSeq{n: 7000000 + i*100}
+	version := Pick(r, []string{"13.0.0", "13.0.0", "13.1.0", "13.3.0", "13.3.0", "13.4.0", "13.4.0", "13.4.0", "13.5.0"})
+	strOrOdd := func(s string) any {
+		switch r.Intn(14) {
+		case 0:
+			return nil
+		case 1:
+			return 7
+		case 2:
+			return map[string]any{"x": s}
+		}
+		return s
+	}
+	strList := func(n int) []any {
+		out := []any{}
+		for k := 0; k < n; k++ {
+			out = append(out, strOrOdd(Pick(r, []string{"@contact.name", "boy", "", "@(1 + 2)", "x y", "é"})))
+		}
+		return out
+	}
+	langs := []string{"fra", "spa", "und", "kin"}
+	loc := map[string]any{}
+	var itemUUIDs []string
+	tr := func(uuid, prop string) {
+		itemUUIDs = append(itemUUIDs, uuid)
+		for _, l := range langs {
+			if !r.Chance(55) {
+				continue
+			}
+			lt, _ := loc[l].(map[string]any)
+			if lt == nil {
+				lt = map[string]any{}
+				loc[l] = lt
+			}
+			item, _ := lt[uuid].(map[string]any)
+			if item == nil {
+				item = map[string]any{}
+			}
+			switch r.Intn(10) {
+			case 0:
+				item[prop] = "not a list"
+			case 1:
+				item[prop] = []any{}
+			case 2:
+				item[prop] = nil
+			default:
+				item[prop] = strList(r.Range(1, 3))
+			}
+			if r.Chance(40) {
+				item["text"] = []any{"autre"}
+			}
+			if r.Chance(8) {
+				lt[uuid] = "not an object"
+			} else if r.Chance(8) {
+				lt[uuid] = map[string]any{}
+			} else {
+				lt[uuid] = item
+			}
+		}
+	}
+	var feats []string
+	sendMsg := func(shareUUID string) map[string]any {
+		u := us.next()
+		if shareUUID != "" && r.Chance(50) {
+			u = shareUUID
+		}
+		msg := map[string]any{"uuid": u, "type": "send_msg", "text": "hi"}
+		if r.Chance(10) {
+			delete(msg, "uuid")
+		}
+		t := map[string]any{}
+		if r.Chance(85) {
+			t["template"] = map[string]any{"uuid": "5722e1fd-fe32-4e74-ac78-3cf41a6adb7e", "name": "affirmation"}
+		}
+		tu := us.next()
+		if shareUUID != "" && r.Chance(30) {
+			tu = shareUUID
+		}
+		switch r.Intn(4) {
+		case 0: // 13.0 style: no uuid
+			t["variables"] = strList(r.Range(0, 3))
+			tr("", "variables")
+		case 1, 2: // 13.1-13.3 style
+			t["uuid"] = strOrOdd(tu)
+			switch r.Intn(6) {
+			case 0:
+				t["variables"] = "text"
+			case 1: // none
+			default:
+				t["variables"] = strList(r.Range(0, 3))
+			}
+			tr(tu, "variables")
+		default: // 13.4 style: components
+			var comps []any
+			for k := r.Range(0, 3); k > 0; k-- {
+				cu := us.next()
+				if r.Chance(15) && len(itemUUIDs) > 0 {
+					cu = Pick(r, itemUUIDs)
+				}
+				comp := map[string]any{"uuid": strOrOdd(cu), "name": "body"}
+				switch r.Intn(6) {
+				case 0:
+					comp["params"] = "text"
+				case 1:
+				default:
+					comp["params"] = strList(r.Range(0, 3))
+				}
+				if r.Chance(80) {
+					tr(cu, "params")
+				}
+				if r.Chance(10) {
+					comps = append(comps, Pick(r, []any{nil, "str", 3, []any{}}))
+				}
+				comps = append(comps, comp)
+			}
+			if comps == nil && r.Bool() {
+				comps = []any{}
+			}
+			if comps != nil || r.Bool() {
+				t["components"] = comps
+			}
+			if r.Chance(20) {
+				t["components"] = "text"
+			}
+			if r.Chance(30) { // the action's own item has translations already
+				tr(u, Pick(r, []string{"text", "template_variables"}))
+			}
+		}
+		switch r.Intn(12) {
+		case 0:
+			msg["templating"] = nil
+		case 1:
+			msg["templating"] = "text"
+		case 2: // no templating at all
+		default:
+			msg["templating"] = t
+		}
+		return msg
+	}
+	spaces := []string{" ", "\t", " ", " ", "　", "\u0085", "​", "\n"}
+	longName := func(limit int) string {
+		n := Pick(r, []int{0, 1, limit - 1, limit, limit + 1, limit + 2, limit + 30, limit / 2, limit/3 + 1})
+		var sb strings.Builder
+		for k := 0; k < n; k++ {
+			switch r.Intn(12) {
+			case 0:
+				sb.WriteString(Pick(r, spaces))
+			case 1:
+				sb.WriteString(Pick(r, []string{"é", "日", "𝒳", "ß"}))
+			default:
+				sb.WriteByte(Pick(r, []byte{'a', 'B', '9', '-', '_', ' '}))
+			}
+		}
+		s := sb.String()
+		if r.Chance(25) {
+			s = Pick(r, spaces) + s
+		}
+		if r.Chance(25) {
+			rs := []rune(s)
+			if len(rs) > limit {
+				s = string(rs[:limit-1]) + Pick(r, spaces) + string(rs[limit:])
+			}
+		}
+		return s
+	}
+	var nodes []any
+	share := us.next()
+	for k := r.Range(1, 3); k > 0; k-- {
+		var actions []any
+		for a := r.Range(0, 3); a > 0; a-- {
+			switch r.Intn(8) {
+			case 0:
+				actions = append(actions, map[string]any{"uuid": us.next(), "type": "set_run_result", "name": strOrOdd(longName(64)), "value": "v", "category": strOrOdd(longName(36))})
+			case 1:
+				actions = append(actions, Pick(r, []any{nil, "str", 5}))
+			case 2:
+				actions = append(actions, map[string]any{"uuid": us.next(), "type": strOrOdd("send_msg"), "templating": map[string]any{"variables": strList(1)}})
+			default:
+				actions = append(actions, sendMsg(share))
+			}
+		}
+		node := map[string]any{"uuid": us.next(), "exits": []any{map[string]any{"uuid": us.next(), "destination_uuid": nil}}}
+		if actions != nil || r.Bool() {
+			node["actions"] = actions
+		}
+		if r.Chance(50) {
+			var cats []any
+			for q := r.Range(0, 3); q > 0; q-- {
+				if r.Chance(10) {
+					cats = append(cats, Pick(r, []any{nil, "str"}))
+				}
+				cats = append(cats, map[string]any{"uuid": us.next(), "name": strOrOdd(longName(36)), "exit_uuid": us.next()})
+			}
+			router := map[string]any{"type": "switch", "result_name": strOrOdd(longName(64)), "categories": cats}
+			if r.Chance(10) {
+				router["categories"] = "text"
+			}
+			node["router"] = router
+			if r.Chance(8) {
+				node["router"] = Pick(r, []any{nil, "str"})
+			}
+		}
+		if r.Chance(6) {
+			nodes = append(nodes, Pick(r, []any{nil, "str", 1}))
+		}
+		nodes = append(nodes, node)
+	}
+	flow := map[string]any{"uuid": us.next(), "name": "Steps", "spec_version": version, "type": "messaging", "nodes": nodes,
+		"language": Pick(r, []any{"eng", "eng", "base", "", "en", "日", "日本", "fran", nil, 5})}
+	switch r.Intn(10) {
+	case 0: // no localization
+	case 1:
+		flow["localization"] = nil
+	case 2:
+		flow["localization"] = "text"
+	default:
+		if r.Chance(15) {
+			loc[Pick(r, langs)] = Pick(r, []any{nil, "str"})
+		}
+		flow["localization"] = loc
+	}
+	if r.Chance(5) {
+		flow["nodes"] = Pick(r, []any{nil, "str", map[string]any{}})
+	}
+	feats = append(feats, "step-doc", version)
+	b, _ := json.Marshal(flow)
+	return c16Def{name: fmt.Sprintf("stepdoc#%d", i), data: b, version: version, feats: strings.Join(feats, ",")}
+}
